@@ -311,6 +311,10 @@ func c04InPlace(c *fw.Ctx, p *ref.Packet, wire []byte) bool {
 	}
 	buf := make([]byte, len(wire), len(wire)+8)
 	copy(buf, wire)
+	if p.PadSize > 1 && c.R.Bool() {
+		// the padding octets of a received packet are whatever the sender left there (RFC 3550 only fixes the last one)
+		c.R.Fill(buf[len(buf)-int(p.PadSize) : len(buf)-1])
+	}
 	var q rtp.Packet
 	if err := q.Unmarshal(buf); err != nil {
 		return true // C01's subject
